@@ -12,7 +12,7 @@ def cut(s, n):
     return s if len(s) <= n else s[: n - 1] + "…"
 
 
-print("| Seeded change | Property | Needs | Suite passes / demo fails with / passes without | Caught by (quick checks, final state) | Rounds 3-15: caught by, as the checks stood when the change arrived | First witness of the property's own check |")
+print("| Seeded change | Property | Needs | Suite passes / demo fails with / passes without | Caught by (quick checks, last run) | Rounds 3-17: caught by, as the checks stood when the change arrived | First witness of the property's own check |")
 print("|---|---|---|---|---|---|---|")
 for d in sorted(glob.glob(os.path.join(V, "seeded", "*"))):
     mp = os.path.join(d, "meta.json")
